@@ -30,9 +30,18 @@ Proof.
   rewrite !N.succ_pos_spec in E. lia.
 Qed.
 
+Lemma seek_unfold data : forall pos, seek data pos = skipn (N.to_nat pos) data.
+Proof.
+  unfold seek. induction data as [|x r IH]; intros pos; cbn [drop].
+  - now rewrite skipn_nil.
+  - destruct (pos =? 0) eqn:E.
+    + apply N.eqb_eq in E. subst pos. reflexivity.
+    + rewrite IH. replace (N.to_nat pos) with (S (N.to_nat (pos - 1))) by lia. reflexivity.
+Qed.
+
 Lemma seek_app pre l : seek (pre ++ l) (N.of_nat (length pre)) = l.
 Proof.
-  unfold seek. rewrite Nnat.Nat2N.id.
+  rewrite seek_unfold. rewrite Nnat.Nat2N.id.
   rewrite skipn_app, skipn_all, Nat.sub_diag. reflexivity.
 Qed.
 
@@ -552,7 +561,7 @@ Qed.
 
 Lemma seek_bytes_lt data pos : bytes_lt data -> bytes_lt (seek data pos).
 Proof.
-  unfold seek, bytes_lt. intros H. rewrite <- (firstn_skipn (N.to_nat pos) data) in H.
+  rewrite seek_unfold. unfold bytes_lt. intros H. rewrite <- (firstn_skipn (N.to_nat pos) data) in H.
   apply Forall_app in H. tauto.
 Qed.
 
